@@ -34,6 +34,56 @@ def has_quant(e, _seen=None):
     return False
 
 
+def _nonneg(t, d=0):
+    """syntactic: the integer term is certainly >= 0"""
+    if d > 6:
+        return False
+    if z3.is_int_value(t):
+        return t.as_long() >= 0
+    if z3.is_app(t):
+        k = t.decl().kind()
+        if k == z3.Z3_OP_SEQ_LENGTH:
+            return True
+        if k == z3.Z3_OP_ADD:
+            return all(_nonneg(c, d + 1) for c in t.children())
+        if k == z3.Z3_OP_ITE:
+            return _nonneg(t.arg(1), d + 1) and _nonneg(t.arg(2), d + 1)
+        if k == z3.Z3_OP_MUL and t.num_args() == 2:
+            return all(_nonneg(c, d + 1) for c in t.children())
+    return False
+
+
+def cheap_truth(c):
+    """True / False when the comparison is decided by sign information alone, else None"""
+    if z3.is_true(c):
+        return True
+    if z3.is_false(c):
+        return False
+    if not z3.is_app(c):
+        return None
+    k = c.decl().kind()
+    if k == z3.Z3_OP_NOT:
+        r = cheap_truth(c.arg(0))
+        return None if r is None else (not r)
+    if k in (z3.Z3_OP_LE, z3.Z3_OP_LT, z3.Z3_OP_GE, z3.Z3_OP_GT) and c.num_args() == 2:
+        a, b = c.arg(0), c.arg(1)
+        if k in (z3.Z3_OP_GE, z3.Z3_OP_GT):
+            a, b = b, a
+            k = z3.Z3_OP_LE if k == z3.Z3_OP_GE else z3.Z3_OP_LT
+        # now: a <= b  /  a < b
+        if z3.is_int_value(b) and _nonneg(a):
+            if b.as_long() < 0:
+                return False          # nonneg <= negative
+            if k == z3.Z3_OP_LT and b.as_long() == 0:
+                return False          # nonneg < 0
+        if z3.is_int_value(a) and _nonneg(b):
+            if a.as_long() <= 0 and k == z3.Z3_OP_LE:
+                return True           # nonpositive <= nonneg
+            if a.as_long() < 0:
+                return True           # negative < nonneg
+    return None
+
+
 def seq_eq_consequences(b):
     """element-wise consequences of `a == b[off:off+ln]` facts (theorems of the sequence theory,
     stated explicitly because E-matching uses them far better than the seq solver does)"""
@@ -172,7 +222,13 @@ class Run:
         if z3.is_false(c):
             return False
         # a FRESH solver per query: z3's incremental mode (check with assumptions on a long-lived
-        # solver) was observed to answer `unsat` on satisfiable sequence/string constraints
+        # solver) was observed to answer `unsat` on satisfiable sequence/string constraints.
+        # Results are cached across the re-executions of path prefixes (hash-consed AST ids).
+        cache = self.ctx.__dict__.setdefault("feas_cache", {})
+        key = (self._pc_key(), c.get_id())
+        hit = cache.get(key)
+        if hit is not None:
+            return hit[0]
         try:
             s = z3.Solver()
             s.set("timeout", self.ctx.feas_timeout_ms)
@@ -182,7 +238,17 @@ class Run:
         except z3.Z3Exception:
             return True  # could not decide: keep the path (sound)
         self.ctx.stats["feas_checks"] += 1
-        return r != z3.unsat
+        res = r != z3.unsat
+        cache[key] = (res, c, list(self.solver.assertions()))  # keep the ASTs alive so ids stay unique
+        return res
+
+    def _pc_key(self):
+        n = len(self.solver.assertions())
+        k = getattr(self, "_pck", None)
+        if k is None or k[0] != n:
+            k = (n, hash(tuple(a.get_id() for a in self.solver.assertions())))
+            self._pck = k
+        return k
 
     def resolve(self, e, depth=0):
         """contextual simplification: drop if-then-else branches that the path condition excludes"""
@@ -190,6 +256,14 @@ class Run:
         if depth > 6 or not (z3.is_app(e) and e.decl().kind() == z3.Z3_OP_ITE):
             return e
         c, a, b = e.arg(0), e.arg(1), e.arg(2)
+        cc = cheap_truth(c)
+        if cc is True:
+            return self.resolve(a, depth + 1)
+        if cc is False:
+            return self.resolve(b, depth + 1)
+        if self.pure:
+            # clauses are evaluated many times: only the syntactic (interval) simplification here
+            return z3.If(c, self.resolve(a, depth + 1), self.resolve(b, depth + 1))
         if not self.feasible(z3.Not(c)):
             return self.resolve(a, depth + 1)
         if not self.feasible(c):
@@ -469,8 +543,23 @@ class Run:
             return self.content(v, heap)
         raise EngineError("not a sequence: %s" % v.t)
 
+    def _is_pending(self, v, heap=None):
+        if v.t.kind != "list":
+            return False
+        h = self.heap if heap is None or v.z not in heap else heap
+        return h[v.z].content is None
+
     def eq(self, a, b, heap=None):
         ka, kb = a.t.kind, b.t.kind
+        # an untyped empty list ([] never appended to) equals exactly the empty sequences
+        pa, pb = self._is_pending(a, heap), self._is_pending(b, heap)
+        if pa or pb:
+            o = b if pa else a
+            if pa and pb:
+                return z3.BoolVal(True)
+            if o.t.kind in ("list", "seq"):
+                return self.seq_len(o, heap) == 0
+            return z3.BoolVal(False)
         if (ka, kb) in (("dict", "vmap"), ("set", "vset")):
             return self.content(a, heap).z == b.z
         if (kb, ka) in (("dict", "vmap"), ("set", "vset")):
@@ -616,6 +705,8 @@ class Run:
         if k in ("seq", "str", "bytes"):
             return z3.Length(v.z)
         if k == "list":
+            if self._is_pending(v, heap):
+                return z3.IntVal(0)
             return z3.Length(self.content(v, heap).z)
         if k == "tuple":
             return z3.IntVal(len(v.t.items))
